@@ -9,7 +9,8 @@
 //	file W <wspec> R <rspec> N <n> <rec>*
 //	wspec = S <nf> (<name:x..> <tag:x..> <kind>)*          kind = i f s gP gMP gLS gMLS gPG gB
 //	      | F <shapetype> <nf> (<name:x..> <type> <size> <prec>)*
-//	rspec = S <nf> (<name> <tag> <kind>)*                  kind additionally gI (a geom.Geom field)
+//	rspec = S <nf> (<name> <tag> <kind>)*                  kind additionally gI (a geom.Geom field); fresh record variable per row
+//	      | SR <nf> (<name> <tag> <kind>)*                 the same, decoding every row into ONE reused record variable
 //	      | F <nn> <name:x..>*
 //	      | M <k> (S … | F …)*                             reading schedule on ONE decoder: record i is read with call i mod k
 //	rec   = <geom tokens> <nv> <val>*                      val = i<dec> | f<16 hex> | s<hex>
@@ -87,6 +88,7 @@ type spec struct {
 	ff     []ffield
 	names  []string
 	calls  []spec // path 'M': per-row reading schedule
+	reuse  bool   // reader path 'S': one record variable reused for all rows (var rec T; for d.DecodeRow(&rec))
 }
 type fcase struct {
 	w, r spec
@@ -122,7 +124,11 @@ func (s spec) toks(b *strings.Builder, reader bool) {
 		return
 	}
 	if s.path == 'S' {
-		fmt.Fprintf(b, " S %d", len(s.sf))
+		tag := "S"
+		if reader && s.reuse {
+			tag = "SR"
+		}
+		fmt.Fprintf(b, " %s %d", tag, len(s.sf))
 		for _, f := range s.sf {
 			fmt.Fprintf(b, " %s %s %s", hx("x", f.name), hx("x", f.tag), f.kind)
 		}
@@ -180,9 +186,10 @@ func parseVal(t string) val {
 
 func parseSpec(p *vproto.Parser, reader bool) spec {
 	var s spec
-	switch p.Next() {
-	case "S":
+	switch t := p.Next(); t {
+	case "S", "SR":
 		s.path = 'S'
+		s.reuse = t == "SR"
 		n := p.Int()
 		for i := 0; i < n; i++ {
 			s.sf = append(s.sf, sfield{unhx(p.Next()), unhx(p.Next()), p.Next()})
@@ -386,16 +393,21 @@ func runCase(c fcase) string {
 		calls = []spec{c.r}
 	}
 	types := make([]reflect.Type, len(calls))
+	vars := make([]reflect.Value, len(calls)) // the reused record variable of each call site
 	for i, cl := range calls {
 		if cl.path == 'S' {
 			types[i] = structType(cl.sf)
+			vars[i] = reflect.New(types[i])
 		}
 	}
 	// one Decoder for the whole file; record i is read with call i mod len(calls)
 	for i := 0; len(rows) < limit && len(calls) > 0; i++ {
 		cl := calls[i%len(calls)]
 		if cl.path == 'S' {
-			p := reflect.New(types[i%len(calls)])
+			p := vars[i%len(calls)]
+			if !cl.reuse {
+				p = reflect.New(types[i%len(calls)])
+			}
 			var more bool
 			if pan := vproto.Safe(func() { more = dec.DecodeRow(p.Interface()) }); pan != "" {
 				rows = append(rows, "PANIC")
